@@ -29,6 +29,12 @@ def cases(tier, seed):
     for _ in range(reps):
         for kern, b, regime, coinc in itertools.product(["rbf", "matern0.5", "matern1.5", "matern2.5"], [[], [2], [3, 2]], ["mid", "small", "large"], [False, True]):
             yield {"kind": "kernel", "kernel": kern, "batch": b, "regime": regime, "coincident": coinc, "seed": rnd.randrange(10**6)}
+        # lengthscales below the kernels' `eps` (1e-6), inputs on that scale: still the same formula
+        for kern, b in itertools.product(["rbf", "matern0.5", "matern1.5", "matern2.5"], [[], [2]]):
+            yield {"kind": "kernel", "kernel": kern, "batch": b, "regime": "below_eps", "coincident": False, "seed": rnd.randrange(10**6)}
+        # sums / products of fast-path kernels: one upstream gradient tensor reaches several hand-written backward functions
+        for combo, how in itertools.product([["rbf", "matern2.5"], ["matern1.5", "rbf"], ["matern2.5", "matern0.5", "rbf"], ["rbf", "rbf"]], ["sum", "prod", "grad_outputs"]):
+            yield {"kind": "kernel_combo", "parts": combo, "how": how, "seed": rnd.randrange(10**6)}
         for kern, rel, b in itertools.product(["rbf", "matern1.5", "matern2.5", "rq", "periodic", "scale_matern2.5"], ["diff", "same_object", "equal_copy", "equal_copy_both_grad"], [[], [2]]):
             yield {"kind": "kernel_xgrad", "kernel": kern, "rel": rel, "batch": b, "seed": rnd.randrange(10**6)}
         for c in range(3):
@@ -68,7 +74,21 @@ def setup(ctx):
 
             return after
 
-        attach.wrap(cls, "backward", after=mk(name))
+        def mkb(name):
+            def before(a, k):
+                return [(x, x.detach().clone()) for x in a[1:] if hasattr(x, "detach")]
+
+            return before
+
+        def mka(name, inner):
+            def after(a, k, out, tok):
+                for x, snap in tok or []:
+                    ctx.expect("backward_keeps_upstream_gradient", bool(__import__("torch").equal(x.detach(), snap)), f"{name}.backward changed the upstream gradient tensor it was given in place", function=name)
+                inner(a, k, out, tok)
+
+            return after
+
+        attach.wrap(cls, "backward", before=mkb(name), after=mka(name, mk(name)))
         attach.count(cls, "forward", ctx, f"monitor:{name}.forward")
 
 
@@ -76,7 +96,7 @@ def run_case(case, ctx):
     from vf import util
 
     g = util.gen(case["seed"])
-    return {"kernel": _kernel, "kernel_xgrad": _kernel_xgrad, "logcdf": _logcdf, "natural": _natural, "trilnatural": _tril, "ciq": _ciq, "testgrad": _testgrad}[case["kind"]](case, ctx, g)
+    return {"kernel": _kernel, "kernel_xgrad": _kernel_xgrad, "kernel_combo": _kernel_combo, "logcdf": _logcdf, "natural": _natural, "trilnatural": _tril, "ciq": _ciq, "testgrad": _testgrad}[case["kind"]](case, ctx, g)
 
 
 def _kernel(case, ctx, g):
@@ -91,11 +111,13 @@ def _kernel(case, ctx, g):
     name = case["kernel"]
     K = gpytorch.kernels
     kern = K.RBFKernel(batch_shape=torch.Size(b)) if name == "rbf" else K.MaternKernel(nu=float(name[6:]), batch_shape=torch.Size(b))
-    ls = {"mid": 0.7, "small": 0.08, "large": 6.0}[case["regime"]] * (1 + util.rand(g, *b, 1, 1))
+    ls = {"mid": 0.7, "small": 0.08, "large": 6.0, "below_eps": 4e-7}[case["regime"]] * (1 + util.rand(g, *b, 1, 1))
     kern.lengthscale = ls
     n1, n2, d = 5, 4, 3
     x1 = util.randn(g, *b, n1, d)
     x2 = util.randn(g, *b, n2, d)
+    if case["regime"] == "below_eps":
+        x1, x2 = x1 * 4e-7, x2 * 4e-7
     if case["coincident"]:
         x2 = torch.cat([x1[..., :2, :], x2[..., 2:, :]], -2)  # two exactly coincident pairs (r = 0)
     G = util.randn(g, *b, n1, n2)
@@ -163,6 +185,49 @@ def _kernel(case, ctx, g):
         kern.raw_lengthscale.copy_(flat.reshape(raw.shape))
     ctx.close("fast_backward_matches_fd", g_fast, fd, (1e-5, 1e-5) if not (name == "matern0.5" and case["coincident"]) else (1e-3, 1e-3), cls=cls)
     ctx.cell({k: v for k, v in case.items() if k != "seed"}, nontrivial=float(g_ref.abs().max()) > 1e-8)
+
+
+def _kernel_combo(case, ctx, g):
+    """several fast-path kernels fed by ONE upstream gradient (sum), by each other's values (product), or by a gradient
+    tensor the caller owns (grad_outputs=W): every parameter's gradient equals the generic autograd path's, W is left alone"""
+    import torch
+
+    import gpytorch
+    from gpytorch import settings as S
+    from vf import util
+
+    K = gpytorch.kernels
+    parts = [K.RBFKernel() if p == "rbf" else K.MaternKernel(nu=float(p[6:])) for p in case["parts"]]
+    for k_ in parts:
+        k_.lengthscale = 0.4 + float(util.rand(g, 1)) * 1.5
+    kern = parts[0]
+    for k_ in parts[1:]:
+        kern = (kern * k_) if case["how"] == "prod" else (kern + k_)
+    x1, x2 = util.randn(g, 5, 2), util.randn(g, 4, 2)
+    W = util.randn(g, 5, 4)
+    W0 = W.clone()
+    params = [k_.raw_lengthscale for k_ in parts]
+    cls = "+".join(case["parts"]) + ":" + case["how"]
+
+    def grads(trace):
+        with S.lazily_evaluate_kernels(False), S.trace_mode(trace), torch.autograd.set_detect_anomaly(True):
+            out = kern(x1, x2).to_dense()
+            if case["how"] == "grad_outputs":
+                g1 = torch.autograd.grad(out, params, grad_outputs=W, retain_graph=True)
+                g2 = torch.autograd.grad(out, params, grad_outputs=W)
+                return out.detach(), g1, g2
+            g1 = torch.autograd.grad((out * W).sum(), params, retain_graph=True)
+            g2 = torch.autograd.grad((out * W).sum(), params)
+            return out.detach(), g1, g2
+
+    of, gf, gf2 = grads(False)
+    og, gg, _ = grads(True)
+    ctx.expect("backward_keeps_upstream_gradient", bool(torch.equal(W, W0)), f"{cls}: the caller's grad_outputs tensor was modified by a backward pass", function="kernel_combo")
+    ctx.close("fast_equals_generic", of, og, (1e-12, 1e-12), cls="combo:" + cls + ":value")
+    for i, (a_, b_, c_) in enumerate(zip(gf, gg, gf2)):
+        ctx.close("fast_equals_generic", a_, b_, (1e-9, 1e-9), cls="combo:" + cls + ":grad", part=case["parts"][i])
+        ctx.expect("backward_repeatable", bool(torch.equal(a_, c_)), f"{cls}: a second backward through the same graph returned another gradient for part {i}", function="kernel_combo")
+    ctx.cell({k: v for k, v in case.items() if k != "seed"})
 
 
 def _kernel_xgrad(case, ctx, g):
